@@ -28,9 +28,18 @@ pub trait FuzzCase: Property {
 
 impl FuzzCase for c01::C01 {
     fn decode(u: &mut Unstructured) -> arbitrary::Result<Option<c01::Case>> {
+        // one input in eight: two segments from raw doubles (decided by exact predicates on the doubles)
+        if u.ratio(1u8, 8u8)? {
+            let mut s = [(0.0f64, 0.0f64); 4];
+            for q in s.iter_mut() {
+                *q = (f64::from_bits(u.arbitrary()?), f64::from_bits(u.arbitrary()?));
+            }
+            let ok = s.iter().all(|q| q.0.is_finite() && q.1.is_finite() && q.0.abs() <= 1e100 && q.1.abs() <= 1e100 && (q.0 == 0.0 || q.0.abs() >= 1e-100) && (q.1 == 0.0 || q.1.abs() >= 1e-100));
+            return Ok(if ok { Some(c01::Case { a: crate::refgeom::G::MultiPoint(vec![]), b: crate::refgeom::G::MultiPoint(vec![]), xf: crate::conv::Xf::ID, vsel: 0, seg: Some(s), trusted: true }) } else { None });
+        }
         let p = gb::pair(u)?;
         let (xf, vsel) = (gb::xf(u)?, u.arbitrary()?);
-        Ok(p.map(|p| c01::Case { a: p.a, b: p.b, xf, vsel, trusted: true }))
+        Ok(p.map(|p| c01::Case { a: p.a, b: p.b, xf, vsel, seg: None, trusted: true }))
     }
 }
 impl FuzzCase for c02::C02 {
